@@ -14,7 +14,7 @@ THEOREMS = ["BeyondVerif.C01." + t for t in (
     "kepl_ecc_kepl_hyperbolic ecc_kepl_ecc_hyperbolic m2eLoop_exit m2e_residual_elliptic mean_ecc_mean_elliptic "
     "ecc_mean_ecc_elliptic m2e_residual_hyperbolic_partial keplToCart_respects_angEq keplToCirc_respects_angEq "
     "edge_methods_are_links forms_walk_unique infos_fpa_components_unit infos_fpa_tan infos_visviva_energy infos_period "
-    "infos_apsides infos_hyperbolic").split()] + [
+    "infos_apsides infos_hyperbolic keplToCart_radius_speed_momentum kepl_cart_kepl_partial").split()] + [
     "BeyondVerif.C01W.m2e_start_overflows", "BeyondVerif.C01W.mean_circular_shifts_hyperbolic_M"]
 LEVEL_TEXT = ("Lean theorems over R about the 17 edge functions, the M2E start/update/exit test and the Infos formulas translated from forms.py / "
               "statevector.py on every run (py2lean): round trips of 8 of the 9 links in both directions (cyl, sph, circular, mean-circular, TLE, "
@@ -24,7 +24,7 @@ LEVEL_TEXT = ("Lean theorems over R about the 17 edge functions, the M2E start/u
               "(fpa components unit, vis-viva/energy, period, apsides, hyperbolic). Differential correspondence of every edge, M2E, Infos and "
               "StateVector.copy along the routed walk against the compiled Lean model.")
 LEVEL_NOTE = ("proof (partial): the keplerian<->cartesian round trip itself and the hyperbolic residual at the returned value are NOT proved "
-              "(oracle + correspondence only); R -> double gap covered by tolerance-bounded correspondence; two open findings (hyperbolic M2E "
+              "beyond a, e, i, node (oracle + correspondence only); R -> double gap covered by tolerance-bounded correspondence; two open findings (hyperbolic M2E "
               "overflow, mean-circular form wraps a hyperbolic M); Lean kernel + propext/Classical.choice/Quot.sound; py2lean translator trusted")
 TECHNIQUE = "Lean 4 proof over edge formulas translated from the Python AST (py2lean) on every run; differential correspondence per edge; API oracle"
 TRUSTED = [
@@ -40,13 +40,13 @@ ASSUMPTIONS = [
     "angles are compared as points of the circle (same cos and sin); equality of numbers is proved inside the turn the code itself returns",
 ]
 NOT_COVERED = [
-    "keplerian <-> cartesian round trip (position and velocity) as a theorem: only invariance under the circle relation is proved; the round trip is checked by the oracle on the real API and the edge by correspondence",
+    "keplerian <-> cartesian round trip in full: proved are radius, vis-viva speed and angular-momentum vector of keplerian->cartesian, recovery of a, e, i and of the node (kepl_cart_kepl_partial) and invariance under the circle relation; recovery of perigee/anomaly and cartesian->keplerian->cartesian are checked by the oracle on the real API and by correspondence only",
     "definition-truth of cartesian->keplerian (a from energy, e = |eccentricity vector|, node, perigee) is checked by the oracle against an independent numpy computation, not proved",
     "spherical rates as time derivatives (HasDerivAt) not proved; oracle uses central differences",
     "conditioning near e->0, i->0, e->1 (excluded by the quantifier); rounding",
 ]
 OPEN = [
-    "kepl_cart round trip (kepl_cart_kepl / cart_kepl_cart) not proved",
+    "kepl_cart round trip: kepl_cart_kepl proved for a, e, i, node only (_partial); omega/nu part and cart_kepl_cart not proved",
     "hyperbolic Kepler residual at the returned value (m2e_residual_hyperbolic_partial bounds it at the last iterate only); hyperbolic eccentric<->mean round trip",
     "walk_roundtrip as a single induction over the routed path (the per-link theorems and the uniqueness of the walk are proved separately)",
 ]
@@ -296,7 +296,8 @@ def orbit_checks(out, fr, k, hyper, a, e, i, Om, om, M, EH):
             g = float(got[idx])
             base = kname.split("_")[0]
             if kname in ANG:
-                if kname in ("E", "M") and hyper:
+                if kname in ("E", "M", "α") and hyper:
+                    # not angles on a hyperbola: compared as numbers (α = ω + M whole)
                     ok = abs(g - exp) <= 1e-6 * max(1.0, abs(exp))
                 else:
                     ok = angdiff(g, exp) <= 2e-6 / (e if kname in ("ω", "ν", "E", "M") and e < 1e-2 else 1.0) / (math.sin(i) if kname in ("Ω", "ω", "u", "α") and math.sin(i) < 0.1 else 1.0)
@@ -307,7 +308,8 @@ def orbit_checks(out, fr, k, hyper, a, e, i, Om, om, M, EH):
                 sc = {"a": abs(a), "r": rs, "rho": rs, "z": rs, "vz": vs, "n": d.get("n", 1.0)}.get(kname, 1.0)
                 ok = abs(g - exp) <= 1e-6 * sc * (1.0 / math.sin(i) if kname in ("ix", "iy") else 1.0) * (1 + abs(exp) if kname in ("ix", "iy") else 1.0)
             if not (ok and math.isfinite(g)):
-                out.fail(f"definition-{form}-{kname}-{conic}", f"{form}[{idx}] is not the textbook value of {kname} computed from the cartesian state",
+                fam = "mean-circular-hyperbolic-M-mod-2pi" if (hyper and kname == "α") else f"definition-{form}-{kname}-{conic}"
+                out.fail(fam, f"{form}[{idx}] is not the textbook value of {kname} computed from the cartesian state",
                          dict(inp, cartesian=[float(x) for x in truth]), observed=g, expected=float(exp))
     # 2. round trips over all ordered pairs
     for src in FORMS:
